@@ -46,6 +46,7 @@ class SimSelector:
             return any(f.readable() for f in self.map) or (deadline is not None and s.now >= deadline - 1e-9)
         s.block(ready, "poller.select")
         self.w.main_deadline = None
+        self.w.spin_run = 0
         self.w.polls += 1
         return [(k, selectors.EVENT_READ) for f, k in list(self.map.items()) if f.readable()]
 
@@ -160,6 +161,10 @@ class SimSocket:
                 self.name, me.name if me else "?", self.in_job.name))
         self.closed += 1
         if self.closed == 1:
+            answered = self.wbuf.count(b"HTTP/1.1 200 OK")
+            if self.total_in > answered and not self.peer_closed and self.w.worker.alive:
+                self.w.anomaly("closed-with-request-in-progress" + ("-at-capacity" if self.w.spins else ""), "the worker closed connection %s although a request (%d sent, %d answered) is in progress and the client is still there" % (
+                    self.name, self.total_in, answered))
             self.closed_at = self.w.s.now
             self.closed_by = me.name if me else None
             self.w.closes.append((self.name, self.w.s.now, self.closed_by, self.w.in_murder))
@@ -182,6 +187,21 @@ class SimFutures:
         fs = list(fs)
         deadline = None if timeout is None else s.now + timeout
         self.w.main_deadline = deadline if fs else None
+
+        if not fs and timeout:
+            # nothing to wait for: the real call returns at once.  The main loop reaches this when it is at capacity
+            # and nothing is in flight: it then spins (busy loop).  After three spins in a row the spinning is modelled
+            # as lasting until the clock moves, so that histories go on (keep-alive reaping stays observable).
+            self.w.spin_run += 1
+            if self.w.spin_run >= 3:
+                self.w.spins += 1
+                dl = s.now + timeout
+                self.w.main_deadline = dl
+                s.block(lambda: s.now >= dl - 1e-9, "busy-loop")
+                self.w.main_deadline = None
+                self.w.spin_run = 0
+            return R(set(), set())
+        self.w.spin_run = 0
 
         def ready():
             if not fs:
@@ -219,7 +239,7 @@ class QuietLog:
 
 class World:
     def __init__(self, threads=1, worker_connections=2, keepalive=2, max_requests=0, jitter_answer=0, choices=(), max_points=3000,
-                 menu_mode="all"):
+                 menu_mode="all", nclients=2):
         import gunicorn.workers.gthread as G
         self.G = G
         self.s = gsched.Sched(choices, max_points=max_points)
@@ -230,6 +250,9 @@ class World:
         self.polls = 0
         self.in_murder = False
         self.menu_mode = menu_mode
+        self.nclients = nclients
+        self.spin_run = 0
+        self.spins = 0
         self.steals_left = 2
         self.murder_passes = []
         self.gates = []            # tasks parked in the application gate: (task, released flag holder)
@@ -392,10 +415,10 @@ class World:
         else:
             raise AssertionError(ev)
 
-    def menu(self, nclients=2):
+    def menu(self, nclients=None):
         """environment events possible in the current quiescent state (ticks excluded)"""
         evs = []
-        for k in range(nclients):
+        for k in range(nclients or self.nclients):
             st = self.clients.get(k)
             if st is None:
                 evs.append(("connect", k))
@@ -414,7 +437,7 @@ class World:
         if self.gates:
             evs.append(("release",))
         if self.menu_mode == "keepalive":
-            evs = [e for e in evs if e[0] == "send" and e[2] == "ka"]
+            evs = [e for e in evs if (e[0] == "send" and e[2] == "ka") or e[0] == "connect"]
         elif self.steals_left > 0:
             evs.append(("steal",))
         return evs
